@@ -13,7 +13,8 @@ import (
 )
 
 var sqlNameAlpha = []string{"t", "users", "a", "b", "c", "a\"b", "a`b", "x\"; DROP TABLE t; --", "we ird", "q'q", "back\\slash",
-	"semi;colon", "dash--dash", "/*c*/", "\"", "`", "\"\"", "é", "A", "col 1", "sel\"ect\"", "a\"\"b", "$1", "?"}
+	"semi;colon", "dash--dash", "/*c*/", "\"", "`", "\"\"", "é", "A", "col 1", "sel\"ect\"", "a\"\"b", "$1", "?",
+	"abcdefghijklmnopqrstuvwxyzabcdefghijklmnopqrstuvwxyzabcdefghij\"z", "abcdefghijklmnopqrstuvwxyzabcdefghijklmnopqrstuvwxyzabcdefghijk`z"}
 
 type sqlwScenario struct {
 	df        *dataframe.DataFrame
